@@ -160,6 +160,8 @@ func runC03(c *Ctx) {
 	c03PushRemote(c)
 	transferRelRule(c, "R12")
 	exactRefNameMatch(c, "R6")
+	lockDecisionRecords(c, "R4")
+	objectIDPushNeedsLocalObject(c, "R4")
 	c03TusResume(c, "R13")
 	up := p.Fn("commands", "(*uploadContext).UploadPointers")
 	prep := p.Fn("commands", "(*uploadContext).prepareUpload")
